@@ -176,6 +176,30 @@ def o_mutant(rec: Recorder, case, soft=False):
         rec.sample(f"noncanonical_accepted:{cls}", {"name": name, "mutant": m, "original": hs, "label": label})
         # structural rule that both readings of the property agree on: in the '$'-separated formats a verifying
         # string has exactly the fields of the stored one (no field may be added, dropped or duplicated)
+        # a field whose text was really changed (extra / missing / different in-alphabet characters, not just letter case,
+        # a single padding-bit character, or decoration the parser strips) must not be silently normalised back to the
+        # stored value: that is an altered setting or digest verifying (e.g. over-long salt cut back, rounds clipped)
+        i0 = 0
+        while i0 < min(len(mtext), len(hs)) and mtext[i0] == hs[i0]:
+            i0 += 1
+        j0 = 0
+        while j0 < min(len(mtext), len(hs)) - i0 and mtext[len(mtext) - 1 - j0] == hs[len(hs) - 1 - j0]:
+            j0 += 1
+        mm, hm = mtext[i0 : len(mtext) - j0], hs[i0 : len(hs) - j0]
+        alnum = "ABCDEFGHIJKLMNOPQRSTUVWXYZabcdefghijklmnopqrstuvwxyz0123456789"
+        # characters that are data for this format (anything else inside a base64 field is skipped by the lenient stdlib decoder)
+        if name == "cta_pbkdf2_sha1":
+            field = set(alnum + "-_")
+        elif name in ("atlassian_pbkdf2_sha1", "django_pbkdf2_sha1", "django_pbkdf2_sha256", "fshp", "ldap_md5", "ldap_sha1", "ldap_salted_md5", "ldap_salted_sha1",
+                      "ldap_salted_sha256", "ldap_salted_sha512", "scrypt"):
+            field = set(alnum + "+/")
+        else:
+            field = set(alnum + "./")
+        if cls not in ("letter-case", "int-decoration", "base64-lenient", "mssql2000-unused-half") and set(mm) <= field and set(hm) <= field and mm.lower() != hm.lower() \
+                and not (len(mm) == len(hm) == 1) and not (name == "django_des_crypt" and mtext.startswith("crypt$$")):  # documented elided-salt form
+            rec.fail(f"C08/altered-field-accepted/{name}", f"{name}: a hash with a textually altered field ({hm!r} -> {mm!r}) is normalised back and verifies the original password ({label})",
+                     "mutant", case, short(mtext, 200), short(hs, 200), soft=soft)
+            return
         if "$" in hs and mtext.count("$") != hs.count("$"):
             rec.fail(f"C08/field-count-accepted/{name}", f"{name}: a string with a different number of '$'-separated fields than the stored hash verifies the original password ({label})",
                      "mutant", case, short(mtext, 200), short(hs, 200), soft=soft)
